@@ -185,15 +185,26 @@ Definition stdlib_version (go tc : bytes) : bytes :=
 Definition expected_gomod (rs : gomod_recs) : list pkg :=
   map (apply_replaces (gq_replaces rs)) (gq_requires rs) ++
   (let gv := stdlib_version (gq_go rs) (gq_toolchain rs) in if is_nil gv then [] else [(s_stdlib, gv)]).
-(* distinct required paths; at most one replace per old path; the replacement paths are new, pairwise
-   distinct module paths (else the extractor merges the results) *)
-Definition wf_gomod (rs : gomod_recs) : bool :=
+(* Go's semantics: every replace directive applies to the ORIGINAL requirements (apply_replaces), never to the
+   result of another replace.  The replacement may be a required module or the left side of another directive
+   (chains a=>b, b=>c; swaps a=>b, b=>a).
+   wf_gomod_base: distinct required paths; at most one replace per old path; nothing is called stdlib; the
+   resulting (name, version) pairs are pairwise different (else they are one package).
+   gomod_chain_ok (the domain D of the extractor): a directive WITHOUT a version never names, as its left side, the
+   replacement path of an EARLIER directive - the extractor matches such a directive against the already replaced
+   entries, i.e. treats the chain as transitive (known finding gomod-versionless-replace-transitive). *)
+Fixpoint gomod_chain_ok (rsl : list gomod_rrec) : bool :=
+  match rsl with
+  | [] => true
+  | r :: rest => forallb (fun r' => negb (is_nil (rr_oldv r')) || negb (bytes_eqb (rr_new r) (rr_old r'))) rest && gomod_chain_ok rest
+  end.
+Definition wf_gomod_base (rs : gomod_recs) : bool :=
   let rp := map fst (gq_requires rs) in
-  let olds := map rr_old (gq_replaces rs) in
-  let news := map rr_new (gq_replaces rs) in
   nodup_bytes rp && negb (bytes_mem s_stdlib rp) &&
-  nodup_bytes olds && nodup_bytes news &&
-  forallb (fun n => negb (bytes_mem n rp) && negb (bytes_mem n olds) && negb (bytes_eqb n s_stdlib)) news.
+  nodup_bytes (map rr_old (gq_replaces rs)) &&
+  forallb (fun r => negb (bytes_eqb (rr_new r) s_stdlib)) (gq_replaces rs) &&
+  nodup_pkgs (map (apply_replaces (gq_replaces rs)) (gq_requires rs)).
+Definition wf_gomod (rs : gomod_recs) : bool := wf_gomod_base rs && gomod_chain_ok (gq_replaces rs).
 
 (* ------------------------------------------------------------------ correspondence records *)
 (* v1: every (name, version) of the nested tree, duplicates removed; claimed for trees whose versions are
@@ -273,3 +284,11 @@ Definition gomod_case_spec_ok c :=
   | None => negb (is_panic (gmc_obs c))
   | Some rs => negb (wf_gomod rs) || same_outcome (gmc_obs c) (Ok (expected_gomod rs))
   end.
+(* the statement without the domain restriction (recognises the known finding) *)
+Definition gomod_case_full_spec_ok c :=
+  match gmc_claim c with
+  | None => true
+  | Some rs => negb (wf_gomod_base rs) || same_outcome (gmc_obs c) (Ok (expected_gomod rs))
+  end.
+Definition gomod_case_wf_outside_D c :=
+  match gmc_claim c with None => false | Some rs => wf_gomod_base rs && negb (gomod_chain_ok (gq_replaces rs)) end.
